@@ -19,7 +19,7 @@ VARINT_EDGES = sorted(
         for d in (-1, 0, 1)
         for s in (1, -1)
     }
-    | {0, -1, 1, (1 << 31) - 1, -(1 << 31), (1 << 63) - 1, -(1 << 63)}
+    | {0, -1, 1, (1 << 31) - 1, -(1 << 31), 1 << 31, -(1 << 31) - 1, (1 << 63) - 1, -(1 << 63)}
 )
 INT_EDGES = [v for v in VARINT_EDGES if -(1 << 31) <= v < (1 << 31)]
 LONG_EDGES = [v for v in VARINT_EDGES if -(1 << 63) <= v < (1 << 63)]
